@@ -486,6 +486,17 @@ def protocol_rule(ctx):
         run(f"[{L}] constant matrix @ vector field", lambda: cm @ v, contract(cm, False, v, True, 1), True, f"matmul:c21:{L}")
         run(f"[{L}] constant vector @ matrix field", lambda: cv @ m, contract(cv, False, m, True, 1), True, f"matmul:c12:{L}")
         run(f"[{L}] constant vector @ vector field", lambda: cv @ v, contract(cv, False, v, True, 1), True, f"matmul:c11:{L}")
+        # every rank pair of dot / ddot, second operand a field or a constant tensor
+        T_by_rank = {1: T1, 2: T2, 4: T4}
+        for ra in (1, 2, 4):
+            for rb in (1, 2, 4):
+                x = _mk("x", (ne, npg) + T_by_rank[ra])
+                for fe_b in (True, False):
+                    y = _mk("y", ((ne, npg) if fe_b else ()) + T_by_rank[rb], fe=fe_b)
+                    yn = f"{'field' if fe_b else 'constant'} rank {rb}"
+                    run(f"[{L}] (field rank {ra}).dot({yn})", lambda x=x, y=y: M.attr_hook(x, "dot")(y), contract(x, True, y, fe_b, 1), True, f"dot:r{ra}:{'f' if fe_b else 'c'}{rb}:{L}")
+                    if ra >= 2 and rb >= 2:
+                        run(f"[{L}] (field rank {ra}).ddot({yn})", lambda x=x, y=y: M.attr_hook(x, "ddot")(y), contract(x, True, y, fe_b, 2), True, f"ddot:r{ra}:{'f' if fe_b else 'c'}{rb}:{L}")
         # dot / ddot through the methods
         for (x, xn), (y, yn, yfe) in (((v, "vector"), (w, "vector", True)), ((m, "matrix"), (v, "vector", True)), ((m, "matrix"), (n_, "matrix", True)), ((c4, "4th-order"), (m, "matrix", True)), ((v, "vector"), (cm, "constant matrix", False)), ((m, "matrix"), (cv, "constant vector", False))):
             run(f"[{L}] {xn}.dot({yn})", lambda x=x, y=y: M.attr_hook(x, "dot")(y), contract(x, True, y, yfe, 1), True, f"dot:{xn}:{yn}:{L}")
@@ -547,6 +558,29 @@ def protocol_rule(ctx):
     from ..xeval import _NpAttr
 
     run("np.einsum('...ij,...jk->...ik', field, field)", lambda: M.call_hook(_NpAttr("einsum"), ["...ij,...jk->...ik", A, B], {}), xe("...ij,...jk->...ik", XArray(A.shape, A.data), XArray(B.shape, B.data)), True, "einsum:keep")
+    # a reduction over the element axis reached through the ufunc protocol itself (np.add.reduce): the result has lost
+    # the (Ne, nPg) axes even when its shape happens to start with (Ne, nPg)
+    Vc = _mk("v", (2, 2, 2))
+    run("np.add.reduce(field(2,2,2), axis=0) with Ne == nPg == dim", lambda: M.ufunc_call("add", (Vc,), method="reduce", axis=0), reduce_plain(XArray(Vc.shape, Vc.data), _UF["add"], 0), False, "coincidence:add.reduce")
+    Mc = _mk("m", (2, 2, 2, 2))
+    wanttr = XArray.__getitem__(XArray(Mc.shape, Mc.data), (0, 0)) + XArray.__getitem__(XArray(Mc.shape, Mc.data), (1, 1))
+    run("np.trace(field(2,2,2,2)) (sums over the element and Gauss-point axes) with Ne == nPg == dim", lambda: M.call_hook(_NpAttr("trace"), [Mc], {}), wanttr, False, "coincidence:np.trace")
+    # a second field handed over by keyword is stripped like the positional one
+    Wt = _mk("w", (3, 2, 2, 2))
+    wantavg = None
+    try:
+        num = reduce_plain(XArray._binop(XArray(A.shape, A.data), XArray(Wt.shape, Wt.data), lambda x, y: x * y), _UF["add"], -1)
+        den = reduce_plain(XArray(Wt.shape, Wt.data), _UF["add"], -1)
+        wantavg = XArray._binop(_rat_data(num), _rat_data(den), lambda x, y: x / y)
+    except Exception:
+        wantavg = None
+    if wantavg is not None:
+        run("np.average(field, axis=-1, weights=field)", lambda: M.call_hook(_NpAttr("average"), [A], {"axis": -1, "weights": Wt}), wantavg, True, "kwarg-field:average")
+    lo, hi = _mk("l", (3, 2, 2, 2), numeric=True), _mk("h", (3, 2, 2, 2), numeric=True)
+    An = _mk("a", (3, 2, 2, 2), numeric=True)
+    mx, mn = _UF["maximum"], _UF["minimum"]
+    wantclip = XArray._binop(XArray._binop(XArray(An.shape, An.data), XArray(lo.shape, lo.data), mx), XArray(hi.shape, hi.data), mn)
+    run("np.clip(field, a_min=field, a_max=field)", lambda: M.call_hook(_NpAttr("clip"), [An], {"a_min": lo, "a_max": hi}), wantclip, True, "kwarg-field:clip")
     run("np.einsum('epij,epij->e', field, field)", lambda: M.call_hook(_NpAttr("einsum"), ["epij,epij->e", A, B], {}), xe("epij,epij->e", XArray(A.shape, A.data), XArray(B.shape, B.data)), False, "einsum:drop")
 
     # ---- constructors: asfearray / broadcast decision table
